@@ -119,6 +119,18 @@ pub fn gen(tier: &str, seed: u64) -> Gen {
         }
         cases.push(case(0, &[pre.as_str(), "if 1 $s", "rec again {*}$s \"$s\" $s; if 1 $s"], &["a", "b"]));
     }
+    // deterministic: every padded number after every view that reads it as a number without
+    // changing the variable
+    let mut npad = 0;
+    for pn in &[" 5 ", "\t7\n", " 0x10", "+3 ", "1e2 ", " 2.50", "5", " -0 "] {
+        for view in &["catch {incr n0 $s}", "catch {string range abcdef $s 4}", "catch {expr {$s + 1}}", "catch {lindex {a b c d e f g h} $s}", "catch {string first a abc $s}"] {
+            let q = molt::types::Value::from(vec![molt::types::Value::from(*pn)]);
+            let pre = format!("{}; set s {}; {}", PRELUDE, q.as_str(), view);
+            cases.push(case(0, &[pre.as_str(), "rec spliced {*}$s", "rec again {*}$s \"$s\" $s; llength $s"], &["a", "b"]));
+            npad += 1;
+        }
+    }
+    fams.push(("numbers written with padding, a sign, a radix prefix or an exponent: used as a number, then expanded with {*} and substituted".to_string(), npad, true));
     fams.push(("script values (and padded numbers) evaluated, expanded with {*} and substituted after list / dictionary / integer / index views of the same value (1-3 views)".to_string(), nview, false));
     (cases, fams)
 }
